@@ -12,6 +12,7 @@ import (
 	"path/filepath"
 	"strconv"
 	"strings"
+	"sync"
 	"syscall"
 	"time"
 
@@ -27,6 +28,44 @@ func msgTerm(m message.Message) string {
 }
 
 // child: open the store, for each message print TRY, store, print ACK
+// childStopUnderLoad: a publisher keeps storing while the main goroutine closes the store; every
+// store that returned nil is acknowledged (also one that returns after the close).
+func childStopUnderLoad(dir string, start, count, closeAfter int) {
+	s := storage.NewSSD(nil)
+	if err := s.Configure(map[string]interface{}{"dir": dir}); err != nil {
+		fmt.Println("OPENFAIL", err)
+		os.Exit(3)
+	}
+	var mu sync.Mutex
+	say := func(f string, a ...interface{}) {
+		mu.Lock()
+		fmt.Printf(f+"\n", a...)
+		mu.Unlock()
+	}
+	say("OPEN")
+	acked := make(chan int, count)
+	go func() {
+		for i := start; i < start+count; i++ {
+			m := message.New(message.Ssid{7, uint32(11 + i%3)}, []byte(fmt.Sprintf("ch%d/", i%3)), expected(i, nil).Payload)
+			m.TTL = uint32(3600 + i)
+			say("TRY %d %s %d", i, hex.EncodeToString(m.ID), len(m.Payload))
+			if err := s.Store(m); err == nil {
+				say("ACK %d", i)
+			} else {
+				say("ERR %d", i)
+			}
+			acked <- i
+		}
+	}()
+	for k := 0; k < closeAfter; k++ {
+		<-acked
+	}
+	s.Close()
+	time.Sleep(150 * time.Millisecond) // stores that overlapped the close have returned or are stuck
+	say("CLOSED")
+	os.Exit(0)
+}
+
 func child(dir string, start, count int, clean bool) {
 	s := storage.NewSSD(nil)
 	if err := s.Configure(map[string]interface{}{"dir": dir}); err != nil {
@@ -73,6 +112,11 @@ func main() {
 	if len(os.Args) > 1 && os.Args[1] == "child" {
 		start, _ := strconv.Atoi(os.Args[3])
 		count, _ := strconv.Atoi(os.Args[4])
+		if os.Args[5] == "stopload" {
+			ca, _ := strconv.Atoi(os.Args[6])
+			childStopUnderLoad(os.Args[2], start, count, ca)
+			return
+		}
 		child(os.Args[2], start, count, os.Args[5] == "clean")
 		return
 	}
@@ -81,8 +125,8 @@ func main() {
 	sh := vlib.NewShards(cfg.Out, "C15", "From Emitter Require Import Lib.Base Model.MsgCodec Check.C15.", "case", "check", 4)
 	base, _ := os.MkdirTemp(cfg.Out, "kill")
 	defer os.RemoveAll(base)
-	nDirs := 2 * cfg.Mult
-	cyclesPer := 3
+	nDirs := 4 * cfg.Mult
+	cyclesPer := 4
 	if cfg.Thorough() {
 		nDirs, cyclesPer = 12, 6
 	}
@@ -93,12 +137,17 @@ func main() {
 		kills, cleans := 0, 0
 		for c := 0; c < cyclesPer; c++ {
 			count := 10 + r.Intn(90)
-			clean := r.Intn(4) == 0
+			clean := r.Intn(3) == 0
 			mode := "kill"
+			closeAfter := 0
 			if clean {
 				mode = "clean"
+				if r.Intn(2) == 0 {
+					mode = "stopload" // the store is closed while the publisher is still storing
+					closeAfter = r.Intn(count)
+				}
 			}
-			cmd := exec.Command(os.Args[0], "child", dir, strconv.Itoa(next), strconv.Itoa(count), mode)
+			cmd := exec.Command(os.Args[0], "child", dir, strconv.Itoa(next), strconv.Itoa(count), mode, strconv.Itoa(closeAfter))
 			stdout, _ := cmd.StdoutPipe()
 			cmd.Stderr = nil
 			if err := cmd.Start(); err != nil {
@@ -110,7 +159,7 @@ func main() {
 			tried := map[int][]byte{}
 			var triedOrder []int
 			acked := []uint64{}
-			opened := false
+			openFailed := false
 			done := make(chan struct{})
 			go func() {
 				defer close(done)
@@ -118,8 +167,8 @@ func main() {
 				for sc.Scan() {
 					f := strings.Fields(sc.Text())
 					switch f[0] {
-					case "OPEN":
-						opened = true
+					case "OPENFAIL":
+						openFailed = true
 					case "TRY":
 						i, _ := strconv.Atoi(f[1])
 						id, _ := hex.DecodeString(f[2])
@@ -173,9 +222,9 @@ func main() {
 			for _, i := range triedOrder {
 				triedTerms = append(triedTerms, vlib.Pair(vlib.N(uint64(i)), msgTerm(expected(i, tried[i]))))
 			}
-			cycleTerms = append(cycleTerms, vlib.App("Cycle", vlib.Bool(clean), vlib.Bool(opened), vlib.List(triedTerms), vlib.NList(acked), vlib.Bool(reopened), vlib.List(recovered)))
+			cycleTerms = append(cycleTerms, vlib.App("Cycle", vlib.Bool(clean), vlib.Bool(!openFailed), vlib.List(triedTerms), vlib.NList(acked), vlib.Bool(reopened), vlib.List(recovered)))
 		}
 		sh.Add(vlib.App("CKill", vlib.List(cycleTerms)), map[string]interface{}{"op": "kill/restart cycles", "cycles": cyclesPer, "kills": kills, "clean_stops": cleans, "messages": next}, "kill-cycles", true)
 	}
-	sh.Finish("per state directory: cycles of a child process storing 10-100 messages (acknowledged one by one over a pipe), killed with SIGKILL after a random number of store attempts plus 0-300 us (so also inside a store call) or stopped cleanly, then the directory is reopened and every channel queried; all cycles reuse the directory; non-trivial: all")
+	sh.Finish("per state directory: cycles of a child process storing 10-100 messages (acknowledged one by one over a pipe), killed with SIGKILL after a random number of store attempts plus 0-300 us (so also inside a store call) or stopped cleanly (also while the publisher is still storing), then the directory is reopened and every channel queried; all cycles reuse the directory; non-trivial: all")
 }
